@@ -152,7 +152,8 @@ def run_export(doc, fmt: str, target: str, root: str, behaviour: str, resdir: bo
                 conv = LibreOfficeConverter(executable_path=os.path.join(fake_soffice_dir(), "soffice"))
 
         def tracer(frame, event, arg):
-            if event == "call" and frame.f_code.co_filename.startswith(SRC):
+            # function calls only: a generator / genexpr frame being resumed (co_flags & CO_GENERATOR) is not a call boundary
+            if event == "call" and frame.f_code.co_filename.startswith(SRC) and not frame.f_code.co_flags & 0x20:
                 info["calls"] += 1
                 if profile is not None:
                     caller = frame.f_back
